@@ -1,6 +1,7 @@
 import Props.Obligations
 import Ctap.FilterThm
 import Ctap.LeafThm
+import Ctap.RoundTrip
 /-
   C14 — algorithm and attestation-format lists are filtered in order, never rejected.
 -/
@@ -80,10 +81,117 @@ theorem formats_decode (de : List (List Byte × Nat)) (texts : List (List Byte))
   rw [attFmtLoop_eq de 2 texts r [] false hv, attFmtFold_eq 2 _ [] false (by simp)]
   simp
 
+/-! #### every entry is examined, wherever it stands
+
+  The lists are *filtered*, not *cut*: an entry that is not well-formed makes the whole list (and
+  with it the request) fail whatever its position — also behind entries that already filled the two
+  kept slots.  ("Once two algorithms are kept the rest can be skipped" is a different decoder.) -/
+
+theorem seqLoop_fault {α : Type} (elem : Input → Res α) (pre : List (List Byte × α)) (bad junk : List Byte) (e : DErr)
+    (m : Nat) (acc : List α)
+    (hpre : ∀ p ∈ pre, ∀ x, elem (p.1 ++ x) = .ok (p.2, x))
+    (hbad : ∀ x, elem (bad ++ x) = .error e) :
+    seqLoop elem none (pre.length + (m + 1)) ((pre.map (·.1)).flatten ++ (bad ++ junk)) acc = .error e := by
+  induction pre generalizing acc with
+  | nil => simp [seqLoop, hbad]
+  | cons p rest ih =>
+    have hlen : (p :: rest).length + (m + 1) = (rest.length + (m + 1)) + 1 := by simp; omega
+    rw [hlen, seqLoop]
+    simp only [List.map_cons, List.flatten_cons, List.append_assoc, hpre p (by simp), Bool.false_eq_true, if_false]
+    exact ih _ (fun q hq => hpre q (by simp [hq]))
+
+theorem seqLoop_all {α : Type} (elem : Input → Res α) (ents : List (List Byte × α)) (r : Input) (acc : List α)
+    (h : ∀ p ∈ ents, ∀ x, elem (p.1 ++ x) = .ok (p.2, x)) :
+    seqLoop elem none ents.length ((ents.map (·.1)).flatten ++ r) acc = .ok (acc ++ ents.map (·.2), r) := by
+  induction ents generalizing acc with
+  | nil => simp [seqLoop]
+  | cons p rest ih =>
+    rw [List.length_cons, seqLoop]
+    simp only [List.map_cons, List.flatten_cons, List.append_assoc, h p (by simp), Bool.false_eq_true, if_false]
+    rw [ih _ (fun q hq => h q (by simp [hq]))]
+    simp
+
+/-- **Parameter lists: a faulty entry anywhere.**  `pre` are entries that decode (recognised or
+    not, any number of them — two recognised ones included), `bad` an entry the element reader
+    rejects with `e`: the list is rejected with `e`. -/
+theorem params_fault_anywhere (elem : Ty) (pre : List (List Byte × Val)) (bad junk : List Byte) (e : DErr) (m : Nat)
+    (hpre : ∀ p ∈ pre, ∀ x, decode elem (p.1 ++ x) = .ok (p.2, x))
+    (hbad : ∀ x, decode elem (bad ++ x) = .error e)
+    (hn : pre.length + (m + 1) < 4294967296) :
+    decode (.filtered 2 [-7, -8] (Spec.ascii "public-key") (Spec.ascii "public-key") elem)
+        (encHead 4 (pre.length + (m + 1)) ++ ((pre.map (·.1)).flatten ++ (bad ++ junk))) = .error e := by
+  simp only [decode]
+  rw [decHead32_encHead 4 _ _ (by omega) hn]
+  simp only []
+  rw [seqLoop_fault (fun i => decode elem i) pre bad junk e m [] hpre hbad]
+
+/-- **Parameter lists: all entries well-formed.**  Whatever their number and whatever is kept, the
+    value is the filter of *all* of them. -/
+theorem params_all_entries (elem : Ty) (ents : List (List Byte × Val)) (r : Input)
+    (h : ∀ p ∈ ents, ∀ x, decode elem (p.1 ++ x) = .ok (p.2, x)) (hn : ents.length < 4294967296) :
+    decode (.filtered 2 [-7, -8] (Spec.ascii "public-key") (Spec.ascii "public-key") elem)
+        (encHead 4 ents.length ++ ((ents.map (·.1)).flatten ++ r))
+      = .ok (.list (((ents.map (·.2)).filterMap wanted).take 2), r) := by
+  simp only [decode]
+  rw [decHead32_encHead 4 _ _ (by omega) hn]
+  simp only []
+  rw [seqLoop_all (fun i => decode elem i) ents r [] h]
+  simp only [List.nil_append, params_filtered]
+
+/-- **Format lists: a faulty entry anywhere** — after any number of well-formed texts (two known
+    formats and an unknown one included), an entry that is not a well-formed text string is an error. -/
+theorem formats_fault_anywhere (de : List (List Byte × Nat)) (texts : List (List Byte)) (bad junk : List Byte) (e : DErr)
+    (m : Nat) (hv : ∀ t ∈ texts, validUtf8 t = true ∧ t.length < 4294967296)
+    (hbad : ∀ x, decText (bad ++ x) = .error e) (hn : texts.length + (m + 1) < 4294967296) :
+    decLeaf (.attFmtPref de 2) (encHead 4 (texts.length + (m + 1)) ++ ((texts.map encText).flatten ++ (bad ++ junk)))
+      = .error e := by
+  simp only [decLeaf]
+  rw [decHead32_encHead 4 _ _ (by omega) hn]
+  simp only []
+  have key : ∀ (known : List Val) (unk : Bool),
+      attFmtLoop de 2 (texts.length + (m + 1)) ((texts.map encText).flatten ++ (bad ++ junk)) known unk = .error e := by
+    induction texts with
+    | nil => intro known unk; simp [attFmtLoop, hbad]
+    | cons t rest ih =>
+      intro known unk
+      have ht := hv t (by simp)
+      have hlen : (t :: rest).length + (m + 1) = (rest.length + (m + 1)) + 1 := by simp; omega
+      rw [hlen, attFmtLoop]
+      simp only [List.map_cons, List.flatten_cons, List.append_assoc]
+      rw [decText_encText t _ ht.2, ht.1]
+      simp only [if_true]
+      have ih' := ih (fun t h => hv t (by simp [h])) (by simp at hn ⊢; omega)
+      cases lookupStr de t with
+      | none => exact ih' known true
+      | some i => exact ih' _ unk
+  rw [key [] false]
+
+
 /-! non-vacuity -/
 example : wanted (.record [some (.int (-7)), some (.text (Spec.ascii "public-key"))]) = some (.int (-7)) := by
   rw [wanted_entry]; simp
 example : wanted (.record [some (.int (-257)), some (.text (Spec.ascii "public-key"))]) = none := by
   rw [wanted_entry]; simp
+
+
+/-! non-vacuity: `[ES256, ES256, 0]` — both slots are taken when the reader meets the third entry, an
+    integer where a map is expected; the list is rejected -/
+section NonVacuous
+open Spec
+private theorem bad0 (x : Input) : decode Spec.credParam ([0x00] ++ x) = .error .other := by
+  simp [Spec.credParam, Spec.textMap, decode, decHead32, decHead]
+private def es256 : Val := .record [some (.int (-7)), some (.text (ascii "public-key"))]
+private theorem pre_ok : ∀ p ∈ [(encode Spec.credParam es256, es256), (encode Spec.credParam es256, es256)],
+    ∀ x, decode Spec.credParam (p.1 ++ x) = .ok (p.2, x) := by
+  intro p hp x
+  simp only [List.mem_cons, List.not_mem_nil, or_false, or_self] at hp
+  subst hp
+  exact rt Spec.credParam (by decide +kernel) es256 x (by decide +kernel)
+/-- the instance: every hypothesis of `params_fault_anywhere` is met by `[ES256, ES256, 0]` -/
+example : True := by
+  have _h := params_fault_anywhere Spec.credParam [(encode Spec.credParam es256, es256), (encode Spec.credParam es256, es256)]
+    [0x00] [] .other 0 pre_ok bad0 (by decide)
+  trivial
+end NonVacuous
 
 end C14
